@@ -32,11 +32,14 @@ def run_case(ctx, inp):
         return {"impl": info}, None
     vdb = rev_impl.VersionDb()
     try:
+        # commands that ran earlier on the same ScriptDirectory object
+        for rows0, cmd0, tgt0 in inp.get("prior", []):
+            rev_impl.command(sd, vdb, rows0, cmd0, tuple(tgt0) if isinstance(tgt0, list) else tgt0)
         tgt = inp.get("target", inp.get("targets"))
         impl = rev_impl.command(sd, vdb, inp["rows"], inp["cmd"], tgt)
     finally:
         vdb.close()
-    model = ctx.drv.ask1({"op": "rev.cmd", **inp, "normOrder": info["normOrder"]})
+    model = ctx.drv.ask1({"op": "rev.cmd", **{k: v for k, v in inp.items() if k != "prior"}, "normOrder": info["normOrder"]})
     return {"impl": rev_corr.canon_cmd(impl), "model": rev_corr.canon_cmd(model)}, impl
 
 
